@@ -290,6 +290,23 @@ def part_product(ctx, shard):
             regB.modify("Msun", 2.0e30)
             for ustr in ["code_length", "code_length/code_time", "Msun", "kg", "Msun/code_length**3", "code_length**2", "J/code_time"]:
                 check_conversion(ctx, S, sname, ustr, regB, {"part": "product", "system": sname, "unit": ustr, "registry": "custom"}, "product-custom-registry")
+        if sname in BUILTIN:
+            # a registry whose DEFAULT unit system is this one: the argument-free calls must answer in it
+            regD = UnitRegistry(unit_system=sname)
+            for ustr in ["km", "J", "T", "mT", "A", "statA", "G", "C", "kV", "g/cm**3"]:
+                ctx.count("evaluations")
+                q = unyt_array(np.array([1.5, 2.5]), ustr, registry=regD)
+                named = attempt(lambda: q.in_base(S))
+                for rname, f in (("in_base()", lambda: q.in_base()), ("get_base_equivalent()", lambda: q.units.get_base_equivalent()), ("convert_to_base()", lambda: (lambda y: (y.convert_to_base(), y)[1])(q.copy()))):
+                    r = attempt(f)
+                    case = {"part": "product", "system": sname, "unit": ustr, "registry": "default-system", "route": rname}
+                    if (r[0] == "ok") != (named[0] == "ok"):
+                        ctx.violation(f"C10|registry-default|system={sname}|unit={_unit_class(ustr)}|route={rname}|mode=disagrees-with-named-system-on-refusal", case, named[0], r[0])
+                    elif r[0] == "ok":
+                        ctx.decided(("registry-default", sname, ustr, rname))
+                        ru = r[1] if rname.startswith("get_base") else r[1].units
+                        if not _same_unit(ru, named[1].units):
+                            ctx.violation(f"C10|registry-default|system={sname}|unit={_unit_class(ustr)}|route={rname}|mode=answers-in-another-unit-system", case, str(named[1].units), str(ru))
         if reg is not None:
             for ustr in ["code_length", "code_mass/code_length**3", "code_length/code_time", "kcode_length" if False else "code_length**2", "m/code_time"]:
                 check_conversion(ctx, S, sname, ustr, reg, {"part": "product", "system": sname, "unit": ustr}, "product")
